@@ -143,3 +143,73 @@ package iscp
 //@   loop 1 invariant forall(i, int, imp(0 <= i && i <= rangeindex, dpgs[i].DataPoints == dps.StreamChunk.DataPointGroups[i].DataPoints))
 //@   loop 1 invariant forall(i, int, imp(0 <= i && i <= rangeindex, dpgs[i].DataID != nil))
 //@   loop 1 invariant forall(i, int, imp(0 <= i && i <= rangeindex, *dpgs[i].DataID == resolvedID(d, dps.StreamChunk.DataPointGroups[i].DataIDOrAlias)))
+
+// ---------------------------------------------------------------- C10: connection state machine
+//@ global errors.ErrConnectionClosed != nil
+//@ global errors.ErrStreamClosed != nil
+
+// connStatus.current is protected by the embedded RWMutex; Closed is terminal.
+//@ guarded connStatus.RWMutex: current
+//@ rely connStatus: imp(old(self.current) == connStatusClosed, self.current == connStatusClosed)
+
+//@ func (*connStatus).IsWithoutLock
+//@   inline
+//@ func (*connStatus).CurrentWithoutLock
+//@   inline
+//@ func (*connStatus).SwapWithoutLock
+//@   inline
+//@ func (*connStatus).waitUntil
+//@   inline
+//@   loop 1 invariant imp(old(e.current) == connStatusClosed, e.current == connStatusClosed)
+
+// the three transitions; "Closed is terminal" is the guarantee side of the rely above
+//@ func (*connStatus).Swap
+//@   props C10
+//@   nopanic
+//@   requires e.cond != nil && e.RWMutex != nil
+//@   modifies e.current
+//@   ensures result == old(e.current) && e.current == state
+//@ func (*connStatus).CompareAndSwap
+//@   props C10
+//@   nopanic
+//@   requires e.cond != nil && e.RWMutex != nil
+//@   modifies e.current
+//@   ensures result == (old(e.current) == old) && imp(result, e.current == new) && imp(!result, e.current == old(e.current))
+//@ func (*connStatus).CompareAndSwapNot
+//@   props C10
+//@   nopanic
+//@   requires e.cond != nil && e.RWMutex != nil
+//@   modifies e.current
+//@   ensures result == (old(e.current) != old) && imp(result, e.current == new) && imp(!result, e.current == old(e.current))
+
+// WaitUntilOrClosed never waits on a closed connection: it reports ErrConnectionClosed.
+// (closure #1 of WaitUntilOrClosed is the hook; it is inlined into waitUntil's loop.)
+//@ func (*connStatus).WaitUntilOrClosed
+//@   props C10
+//@   nopanic
+//@   requires e.cond != nil && e.RWMutex != nil && ctx != nil
+//@   ensures imp(result == nil, e.current == status)
+//@   ensures imp(old(e.current) == connStatusClosed && status != connStatusClosed, result == errors.ErrConnectionClosed)
+
+// Conn-level use of the state machine (guarantee side of "Closed is terminal")
+//@ func (*Conn).send
+//@   props C10
+//@   requires c.state != nil && c.state.cond != nil && c.state.RWMutex != nil && ctx != nil && f != nil
+//@   assert call CompareAndSwapNot: arg1 == connStatusClosed
+//@   ensures imp(old(c.state.current) == connStatusClosed, result == errors.ErrConnectionClosed)
+//@   loop 1 invariant c.state == old(c.state) && c.state.cond != nil && c.state.RWMutex != nil
+//@   loop 1 invariant imp(old(c.state.current) == connStatusClosed, c.state.current == connStatusClosed)
+
+//@ func (*Conn).reconnect
+//@   props C10
+//@   nopanic
+//@   requires c.state != nil && c.state.cond != nil && c.state.RWMutex != nil && c.wireConn != nil && c.logger != nil && c.Config.TokenSource != nil
+//@   assert call CompareAndSwapNot: arg1 == connStatusClosed
+//@   assert call CompareAndSwap): arg1 == connStatusReconnecting
+//@   ensures imp(old(c.state.current) == connStatusClosed, result == errors.ErrConnectionClosed && c.wireConn == old(c.wireConn))
+
+//@ func (*Conn).close
+//@   props C10 C08
+//@   requires c.state != nil && c.state.cond != nil && c.state.RWMutex != nil
+//@   assert call connStatus).Swap: arg1 == connStatusClosed
+//@   assert lock wireConnMu: c.state.current == connStatusClosed   // Closed is published before waiting for the wire lock, so a reconnect loop holding it can finish
